@@ -480,10 +480,17 @@ func runCheck(id, tier string) int {
 		jb, _ := json.MarshalIndent(rj, "", " ")
 		os.WriteFile(path, jb, 0o644)
 		newVio = append(newVio, sig)
+		exit = 1
+		if len(newVio) > 40 {
+			continue // replay written; keep the console readable
+		}
 		fmt.Printf("VIOLATION property=%s replay=%s\n", id, path)
 		fmt.Printf("  signature: %s (%d case(s))\n  what: %s\n  program: %s\n  expected: %s\n  observed: %s\n", sig, v.Count,
 			v.Replay.What, oneLine(v.Replay.Program, 300), oneLine(v.Replay.Expected, 300), oneLine(v.Replay.Observed, 300))
 		exit = 1
+	}
+	if len(newVio) > 40 {
+		fmt.Printf("... and %d further violation signatures (replays under %s)\n", len(newVio)-40, repDir)
 	}
 	if len(harnessErr) > 0 {
 		fmt.Println("HARNESS-ERROR:", strings.Join(harnessErr, "\n  "))
